@@ -946,7 +946,8 @@ func driverValuesEqual(dv1, dv2 driver.Value) bool {
 	// written in and a monotonic clock reading do not matter to the database.
 	if t1, ok := dv1.(time.Time); ok {
 		if t2, ok := dv2.(time.Time); ok {
-			return t1.Equal(t2)
+			// The database keeps microseconds at most; the driver cuts off the rest.
+			return t1.Truncate(time.Microsecond).Equal(t2.Truncate(time.Microsecond))
 		}
 		return false
 	}
